@@ -365,7 +365,9 @@ class Interp:
     def __init__(self, prog, key, profile="debug", assume=None):
         self.prog = prog
         self.key = key
-        self.fv = FnView(prog, key)
+        # closures the function calls directly are expanded in place: constants and facts flow into them (`let bit = |n| (x >> n) & 1`)
+        from .inline import deep_splice as _ds
+        self.fv = FnView(prog, key, f=_ds(prog, prog.fn(key), only=("call",)))
         self.f = self.fv.f
         self.profile = profile
         self.obls = {}          # (block, idx) -> Obligation
@@ -1682,6 +1684,16 @@ def check_panic_freedom(prog, rule, roots, prop, scope_crates=("rustybgp_packet"
             reviewed[(e["fn"], _norm_site(e["site"]))] = e
     reach = prog.reachable(roots)
     fns = sorted(k for k in reach if k.split("::")[0] in scope_crates)
+    # closures that are only ever called directly are analysed as part of their creator (expanded in place)
+    from .inline import directly_called_only as _dco
+    inl = set()
+    for k in fns:
+        if prog.ix[k].get("closures"):
+            try:
+                inl |= _dco(prog, k)
+            except Exception:
+                pass
+    fns = [k for k in fns if k not in inl]
     n_open = 0
     seen_keys = set()
     claimed = set()
@@ -1745,15 +1757,20 @@ def check_panic_freedom(prog, rule, roots, prop, scope_crates=("rustybgp_packet"
             if rk0 in reviewed:
                 exact.add(rk0)
             else:
-                open_keys.append(((k, b, str(idx)), ob.kind))
+                open_keys.append(((k, b, str(idx)), ob.kind, (ob.kind, ob.line, re.sub(r"\s+", " ", ob.desc)[:70])))
         if open_keys:
             nm = prog.name(k)
             pool = [rk1 for rk1, e in reviewed.items() if e.get("prop") == prop and rk1 not in exact and rk1 not in claimed
                     and (e["fn"] == nm or e["fn"] == _root_fn_name(nm) or _root_fn_name(e["fn"]) == nm)]
-            for okey, kind in open_keys:
+            by_src = {}      # one source site expanded at several call sites (a closure called twice) is one site
+            for okey, kind, src in open_keys:
+                if src in by_src:
+                    fallback[okey] = by_src[src]
+                    continue
                 for rk1 in pool:
                     if _site_kind(reviewed[rk1]["site"]) == _site_kind(kind + ":"):
                         fallback[okey] = rk1
+                        by_src[src] = rk1
                         pool.remove(rk1)
                         claimed.add(rk1)
                         break
